@@ -360,6 +360,10 @@ class Catalog:
             if len(p) == 2:
                 self.cur_db = p[0]
             self.cur_schema = p[-1]
+        elif op == "session":
+            # another connection of the same instance: connect(database=, schema=) arguments, either may be None
+            self.cur_db = fx[1].upper() if fx[1] else None
+            self.cur_schema = fx[2].upper() if fx[2] else None
         elif op == "use_database":
             self.cur_db = self._f(fx[1])
             self.cur_schema = UNKNOWN  # Snowflake: PUBLIC if it exists; not part of this property
